@@ -23,6 +23,9 @@ pub struct Outcome {
     pub cover: BTreeMap<String, BTreeSet<u64>>,
     pub nontrivial: bool,
     pub violation: Option<Violation>,
+    /// set by the watchdog
+    #[serde(default)]
+    pub hung: bool,
 }
 
 impl Outcome {
@@ -57,6 +60,11 @@ pub trait Engine {
     fn execute(trace: &Self::Trace) -> Outcome;
     /// One-step reductions, most aggressive first.
     fn shrink(trace: &Self::Trace) -> Vec<Self::Trace>;
+    /// A run that does not finish within the watchdog limit is retried once with the trace this
+    /// returns (e.g. a coarser schedule); None = a hang is a violation as it stands.
+    fn on_hang(_trace: &Self::Trace) -> Option<Self::Trace> {
+        None
+    }
 }
 
 thread_local! {
@@ -112,7 +120,14 @@ extern "C" {
     fn fork() -> i32;
     fn pipe(fds: *mut i32) -> i32;
     fn waitpid(pid: i32, status: *mut i32, options: i32) -> i32;
+    fn kill(pid: i32, sig: i32) -> i32;
     fn _exit(code: i32) -> !;
+}
+
+/// Watchdog for one isolated run, in seconds of wall time. It never influences a schedule: it
+/// only ends a child that no longer makes progress (a run normally takes well under a second).
+pub fn watchdog_secs() -> u64 {
+    std::env::var("VERIF_RUN_WATCHDOG_S").ok().and_then(|s| s.parse().ok()).unwrap_or(120)
 }
 
 /// Called in the child before a run starts (e.g. to reseed the system-call seam).
@@ -146,10 +161,35 @@ pub fn execute_isolated<E: Engine>(trace: &E::Trace, run_seed: u64, init: Option
     }
     drop(unsafe { std::fs::File::from_raw_fd(fds[1]) });
     let mut r = unsafe { std::fs::File::from_raw_fd(fds[0]) };
-    let mut buf = Vec::new();
-    let _ = r.read_to_end(&mut buf);
+    // read the child's report on a helper thread so that the watchdog can end a stuck child
+    let (tx, rx) = std::sync::mpsc::channel::<Vec<u8>>();
+    let reader = std::thread::spawn(move || {
+        let mut buf = Vec::new();
+        let _ = r.read_to_end(&mut buf);
+        let _ = tx.send(buf);
+    });
+    let limit = std::time::Duration::from_secs(watchdog_secs());
     let mut status = 0i32;
-    unsafe { waitpid(pid, &mut status, 0) };
+    let mut hung = false;
+    let buf = match rx.recv_timeout(limit) {
+        Ok(b) => {
+            unsafe { waitpid(pid, &mut status, 0) };
+            b
+        }
+        Err(_) => {
+            hung = true;
+            unsafe { kill(pid, 9) };
+            unsafe { waitpid(pid, &mut status, 0) };
+            rx.recv().unwrap_or_default()
+        }
+    };
+    let _ = reader.join();
+    if hung {
+        let mut o = Outcome::default();
+        o.hung = true;
+        o.violate("process-hung", format!("the run made no progress for {} s and was ended by the watchdog", limit.as_secs()));
+        return o;
+    }
     match serde_json::from_slice::<Outcome>(&buf) {
         Ok(o) => o,
         Err(_) => {
@@ -195,7 +235,15 @@ pub fn in_child<T: Serialize + DeserializeOwned>(f: impl FnOnce() -> T) -> Optio
 
 fn run_one<E: Engine>(trace: &E::Trace, run_seed: u64, isolate: bool, init: Option<ChildInit>) -> Outcome {
     if isolate {
-        execute_isolated::<E>(trace, run_seed, init)
+        let o = execute_isolated::<E>(trace, run_seed, init);
+        if o.hung {
+            if let Some(coarser) = E::on_hang(trace) {
+                let mut o2 = execute_isolated::<E>(&coarser, run_seed, init);
+                o2.count("runs_hung_then_completed_with_coarser_schedule", if o2.hung { 0 } else { 1 });
+                return o2;
+            }
+        }
+        o
     } else {
         if let Some(f) = init {
             f(run_seed);
